@@ -59,19 +59,30 @@ class Coalesce(Evaluatable[A]):
     def _delegate(self, method: str, options: Optional[Options] = None) -> Any:
         options = options or {}
         err: Optional[EvaluationError] = None
+        failed: Optional[EvaluationError] = None
         skipped: Set[str] = set()
 
         for member in self.members:
             try:
                 member.validate(options)
-                result = getattr(member, method)(options)
-                return result | skipped if method == "keys" else result
             except EvaluationError as e:
                 err = e
                 if method == "keys":
                     skipped |= _present_keys(member, options)
+                continue
 
-        raise err  # type: ignore
+            try:
+                result = getattr(member, method)(options)
+                return result | skipped if method == "keys" else result
+            except EvaluationError as e:
+                # The options sufficed for this member; it failed for another reason
+                failed = failed or e
+                if method == "keys":
+                    skipped |= _present_keys(member, options)
+
+        # A member whose options sufficed but which could not be evaluated is the real
+        # failure; do not report it as an option missing for one of the fallbacks.
+        raise failed or err  # type: ignore
 
     def __repr__(self) -> str:
         return f"Coalesce({', '.join(map(repr, self.members))})"
